@@ -31,6 +31,9 @@ inductive SliceEnd (V : Type) where
   | parksSelecting
   /-- the process parked itself in `spawning` (`mark_spawning` inside the Spawn instruction) -/
   | parksSpawning
+  /-- the slice ended with `Action::RequestEffect`: the executor re-queues the process, then
+      `Worker::handle_action` calls `mark_effecting` (insert into `effecting`, remove from the queue) -/
+  | parksEffecting
   /-- the last frame was exhausted with an empty stack: `result = Err(StackUnderflow)` and an early
       `return` that skips the awaiter loop -/
   | finishesEmpty
@@ -81,6 +84,10 @@ def Exec.endSlice {V} (ex : Exec V) (pid : Nat) (p' : Proc V) : SliceEnd V → E
   | .parksSpawning =>
     let ex1 := ex.setProc pid p'
     { ex1 with spawning := if pid ∈ ex1.spawning then ex1.spawning else ex1.spawning ++ [pid],
+               queue := ex1.queue.filter (· != pid) }
+  | .parksEffecting =>
+    let ex1 := ex.setProc pid p'
+    { ex1 with effecting := if pid ∈ ex1.effecting then ex1.effecting else ex1.effecting ++ [pid],
                queue := ex1.queue.filter (· != pid) }
   | .finishes v =>
     (ex.setProc pid { p' with result := some (.ok v) }).announce pid (.ok v)
